@@ -13,7 +13,7 @@ import (
 
 func init() {
 	register("C11",
-		"one reflective call per evaluated call expression, outside every loop, on the evaluated callee, after the callee-kind test, the arity tests, the spread expansion and the per-argument conversions, each of whose failures returns an error before the call; the arity test chosen for each of (variadic?, spread?) is the right one (exact count unless variadic without spread; spread on a non-variadic function rejected); variadic-ness comes from the function type's IsVariadic; the context is prepended exactly when parameter 0 is context.Context and fixed-position target types are shifted by the same amount; the variadic tail converts to the element type of the last parameter from the same boundary the arity test uses; a null argument becomes the zero reflect.Value of the parameter type (not a wrapped one); a returned error is wrapped with the callee name; the numeric kind table agrees with the numeric converter's arms.",
+		"one reflective call per evaluated call expression, outside every loop, on the evaluated callee, after the callee-kind test, the arity tests, the spread expansion and the per-argument conversions, each of whose failures returns an error before the call; the arity test chosen for each of (variadic?, spread?) is the right one (exact count unless variadic without spread; spread on a non-variadic function rejected); variadic-ness comes from the function type's IsVariadic; the context is prepended exactly when parameter 0 is context.Context and fixed-position target types are shifted by the same amount; the variadic tail converts to the element type of the last parameter from the same boundary the arity test uses; a null argument becomes the zero reflect.Value of the parameter type (not a wrapped one); a returned error is wrapped with the callee name; the numeric kind table agrees with the numeric converter's arms. Integer results of the numeric converter are Go conversions applied directly to Float64()/Int64() (truncation), a per-kind converter hands back its source only behind `type == target`, and an integer-kind source for a string target never takes the reflect Convert shortcut (code point instead of digits).",
 		"numeric conversion results (truncation toward zero, nearest float) - value-level; what the host function does.",
 		runC11)
 }
